@@ -27,6 +27,7 @@ class GenFn:
         self.obligations = []    # list of dict(oid, kind, tags, text, origin)
         self.calls = []          # list of (callee_key, repo_line)
         self.has_self = False
+        self.binders = {}
 
 
 # ----------------------------------------------------------------------------
@@ -559,6 +560,82 @@ def stmt_bounds(st, i, j, lo, hi):
     return a, b
 
 
+LOCKED_BINDERS = {}   # fid -> {'params': [...], 'lets': [...]}, filled by driver.assemble from obligations.lock
+
+
+def extract_binders(st, sliced):
+    """names of the parameters and of the simple `let` / `for` binders of a function, in textual order"""
+    out = {'params': [], 'lets': []}
+    try:
+        fn_i = next(i for i, t in enumerate(st) if t[1] == 'fn')
+        po = next(i for i in range(fn_i, len(st)) if st[i][1] == '(')
+        pc = rtok.match_close(st, po)
+    except StopIteration:
+        return out
+    if not sliced:
+        depth = 0
+        start = po + 1
+        i = po + 1
+        while i <= pc:
+            t = st[i][1]
+            if i == pc or (t == ',' and depth == 0):
+                seg = [x[1] for x in st[start:i]]
+                if ':' in seg:
+                    k = seg.index(':')
+                    names = [x for x in seg[:k] if x not in ('mut', '&', 'ref')]
+                    if len(names) == 1 and re.match(r'^[a-z_]\w*$', names[0]):
+                        out['params'].append(names[0])
+                    else:
+                        out['params'].append('?' + ' '.join(seg[:k]))
+                start = i + 1
+            elif t in ('(', '[', '{', '<'):
+                depth += 1
+            elif t in (')', ']', '}', '>'):
+                depth -= 1
+            i += 1
+    for i in range(pc, len(st) - 2):
+        if st[i][1] == 'let' and st[i - 1][1] not in ('if', 'while'):
+            j = i + 1
+            if st[j][1] == 'mut':
+                j += 1
+            if st[j][0] == 'ident' and st[j + 1][1] in ('=', ':', ';') and st[j][1] != 'ghost':
+                out['lets'].append(st[j][1])
+        elif st[i][1] == 'for' and st[i + 1][0] == 'ident' and st[i + 2][1] == 'in':
+            out['lets'].append(st[i + 1][1])
+    return out
+
+
+FRAME_EQ_RE = re.compile(r'^final\(w\)\.(\w+)\s*==\s*old\(w\)\.(\w+)$')
+FRAME_PRED_RE = re.compile(r'^(fr_\w+)\(\*old\(w\),\s*\*final\(w\)\)$')
+
+
+def frame_conjuncts(ensures):
+    """top-level conjuncts `final(w).X == old(w).X` / `fr_*(*old(w), *final(w))` of the unconditional ensures clauses,
+    rewritten over the current state `w`: [(tags, text)]"""
+    out = []
+    seen = set()
+    for c in ensures:
+        if c.origin in ('auto-monotone',):
+            continue
+        txt = ' '.join(l.split('//')[0].strip() for l in c.text.split('\n'))
+        if '==>' in txt or 'forall' in txt or 'exists' in txt or 'match ' in txt or '||' in txt:
+            continue
+        for part in txt.split('&&'):
+            part = part.strip().rstrip(',')
+            m = FRAME_EQ_RE.match(part)
+            if m and m.group(1) == m.group(2):
+                t = 'w.%s == old(w).%s' % (m.group(1), m.group(1))
+            else:
+                m = FRAME_PRED_RE.match(part)
+                if not m:
+                    continue
+                t = '%s(*old(w), *w)' % m.group(1)
+            if t not in seen:
+                seen.add(t)
+                out.append((c.tags, t))
+    return out
+
+
 def build_fn(fs, repo, effectful, table_keys, canary=False):
     """returns GenFn with out_lines filled"""
     g = GenFn(fs)
@@ -652,6 +729,39 @@ def build_fn(fs, repo, effectful, table_keys, canary=False):
 
     toks = rtok.lex(text)
     st = rtok.sig(toks)
+    # R17: contract text follows renamed binders.  The names of the parameters and of the `let`/`for` binders, in textual order, are recorded
+    # by `./check lock`; when the current function has the same number of them and some differ, the contract's references are renamed alike.
+    g.binders = extract_binders(st, sliced)
+    locked = LOCKED_BINDERS.get(fs.fid)
+    if locked and not fs.external:
+        ren = {}
+        for kind in ('params', 'lets'):
+            a, b = locked.get(kind, []), g.binders.get(kind, [])
+            if len(a) == len(b):
+                diff = [(x, y) for x, y in zip(a, b) if x != y]
+                # parameters are positional and typed: any number may be renamed; of the local binders at most two may differ
+                if kind == 'params' or len({d for d in diff}) <= 2:
+                    for x, y in diff:
+                        if ren.get(x, y) != y or y in a:
+                            ren = None
+                            break
+                        ren[x] = y
+            if ren is None:
+                break
+        if ren:
+            pat = re.compile(r'(?<![\w.])(' + '|'.join(re.escape(k) for k in ren) + r')(?![\w(])')
+
+            def rn(t):
+                return pat.sub(lambda m: ren[m.group(1)], t)
+            for c in list(fs.requires) + list(fs.ensures):
+                c.text = rn(c.text)
+            for lp in fs.loops.values():
+                for c in list(lp.invariants) + list(lp.invariants_xb) + list(lp.ensures) + list(lp.decreases):
+                    c.text = rn(c.text)
+            for insr in fs.inserts:
+                insr.lines = [rn(l) for l in insr.lines]
+                insr.anchor = rn(insr.anchor)
+            log.append('R17 contract names follow renamed binders: %s' % ', '.join('%s -> %s' % kv for kv in sorted(ren.items())))
     # A-monotone (auto): the failure counters of the ghost world only grow.  Every function that holds the mutable world token gets the
     # postcondition, every loop in it the invariant; trusted stand-ins get the same clause injected by driver.inject_monotone.
     mut_world = (not fs.noworld and not sliced) or (sliced and 'Tracked<&mut World>' in text.split('{', 1)[0])
@@ -662,6 +772,11 @@ def build_fn(fs, repo, effectful, table_keys, canary=False):
             for n in range(1, len(find_loops(st, _fo + 1, len(st) - 1)) + 1):
                 lp = fs.loops.setdefault(n, specmod.Loop(n))
                 lp.invariants = list(lp.invariants) + [specmod.Clause(['C04'], MONO_INV, 'invariant', 'auto-monotone-loop')]
+                # auto-frame: whatever the function promises to leave unchanged *unconditionally* is unchanged at every loop head too.
+                # Stated for every loop, also those whose body only reads the world today, so that a body that starts to call
+                # something fallible does not lose the frame for lack of an invariant (a proof failure, not a violation).
+                for c in (frame_conjuncts(fs.ensures) if os.environ.get('VERIF_NO_AUTOFRAME') != '1' else []):
+                    lp.invariants = list(lp.invariants) + [specmod.Clause(list(c[0]), c[1], 'invariant', 'auto-frame-loop')]
     ins = []   # (offset, seq, text, origin)
     seq = [0]
 
